@@ -23,6 +23,11 @@ var unit = ev.Unit[Case]{
 	Name: "apply",
 	Rule: "document (object/array root, depth<=4, pools of index-like/escaped/non-ASCII names, exotic number literals, nulls anywhere) x state-aware sequence of 0-8 operations (each drawn against the model's current document; ~12% near-miss paths; up to 2 operations after the first failing one) x SupportNegativeIndices; non-trivial = the model applied >=2 operations before its verdict, or the first failure is at index >=1, or it is a failure other than a failed test at index 0; distinct = distinct serialised (doc, patch, option)",
 	Draw: func(t *rapid.T) Case {
+		if gen.OneIn(t, 150, "bulk") {
+			// most members of one wide object taken away in one call
+			d, ops, _ := gen.Bulk(t)
+			return Case{Doc: d.Text(false), Patch: ref.OpsText(ops, false), Neg: rapid.Bool().Draw(t, "bneg")}
+		}
 		doc := gen.Default.Root().Draw(t, "doc")
 		neg := rapid.Bool().Draw(t, "neg")
 		g := gen.NewOpGen(neg)
